@@ -95,7 +95,7 @@ PROPS = {
     "C05": {
         "required_theorems": ["c05_result", "c05_exit_reasons", "c05_thread_terminates", "c05_add_order_irrelevant",
                               "c05_exit_lossless_wait", "c05_block_invariant", "c05_every_schedule_invariant",
-                              "c05_every_schedule_result", "c05_step_exists"],
+                              "c05_every_schedule_result", "c05_step_exists", "c05_retire_all_is_reference", "c05_unsound_retire_loses"],
         "runs": [
             # hypothesis of the runner theorems: every library block is a chunk-independent stream function with truthful
             # verdicts (checked on the real blocks: drip-fed vs greedy, verdict acceptor, eof()/constructor probes)
@@ -128,7 +128,7 @@ PROPS = {
     },
     "C06": {
         "required_theorems": ["c06_exit_quiescent", "c06_quiet_pass_calls", "c06_progress_continues",
-                              "c06_quiescent_is_fixpoint", "c06_terminates", "c06_every_schedule_result"],
+                              "c06_quiescent_is_fixpoint", "c06_terminates", "c06_every_schedule_result", "c06_retire_all_is_reference", "c06_unsound_retire_loses"],
         "runs": [
             # hypothesis of the runner theorems: every library block is a chunk-independent stream function with truthful
             # verdicts (checked on the real blocks: drip-fed vs greedy, verdict acceptor, eof()/constructor probes)
@@ -227,7 +227,8 @@ PROPS = {
         "required_theorems": ["c09_sync_within_windows", "c09_sync_wait_input_truthful", "c09_sync_wait_output_truthful",
                               "c09_sync_progress", "c09_sync_retires", "c09_skip", "c09_rtlsdr", "c09_fir", "c09_gated",
                               "c09_delay", "c09_au_encode", "c09_v2s", "c09_resampler", "c09_generator_source", "c09_vector_sink",
-                              "c09_null_sink", "c09_fft_float_eof_sound", "c09_fft_float_old_eof_unsound"],
+                              "c09_null_sink", "c09_fft_float_eof_sound", "c09_fft_float_old_eof_unsound",
+                              "c09_delay_eof_sound", "c09_delay_old_eof_unsound"],
         "runs": [
             {"sub": "blocks", "quick": ["--seed", "{seed}", "--set", "modelled", "--cases", 800, "--steps", 40, "--tag-heavy", 1],
              "thorough": ["--seed", "{seed}", "--set", "modelled", "--cases", 40000, "--steps", 80, "--tag-heavy", 1]},
@@ -614,7 +615,7 @@ MANIFEST_TEXT = {
                 "(5) the operational layer that joins (1) and (4): a graph state (committed history per stream, consumed counts per "
                 "block) and steps in which ANY block consumes more and extends its outputs as a prefix of its history function - "
                 "for EVERY sequence of steps the invariant holds, and every run ending with everything consumed and emitted is the "
-                "reference execution (c05_every_schedule_invariant/_result, with an executable step c05_step_exists). "
+                "reference execution (c05_every_schedule_invariant/_result, with an executable step c05_step_exists); with the set of retired blocks in the state, every interleaving of steps and SOUND retirements (eof() true only when the block's inputs are final, consumed and everything is emitted) ends, all blocks retired, in the reference execution (c05_retire_all_is_reference; c05_unsound_retire_loses is the witness that the soundness is needed - the FftFilterFloat defect). "
                 "Tied to the code by scripted blocks on the real MTGraph and by generated library graphs whose sinks must equal "
                 "a sequential reference execution in every configuration.",
         "design_ref": "DESIGN.md section 2, C05",
